@@ -35,16 +35,16 @@ Steps(s, m, decoded) ==
                    [] o = "scribble_in" -> Step("heap_scribble_in", "C20", FALSE, [mode |-> Len(s) % 2], NoCrash)
                    [] o = "encode" -> Step("heap_encode", "C20", FALSE, [x |-> 0],
                                            \* (outside the encodable domain there is no reference encoding, but encoding must still not alter the message)
-                                           IF Encodable(m) THEN [panic |-> FALSE, err |-> FALSE, wire |-> EncMsg(Norm(m)), srcafter |-> Norm(m).payloads, refsout |-> FALSE, heldsame |-> TRUE, insame |-> TRUE]
+                                           IF Encodable(m) THEN [panic |-> FALSE, err |-> FALSE, wire |-> EncMsg(Norm(m)), srcafter |-> Norm(m).payloads, refsout |-> FALSE, heldsame |-> TRUE, insame |-> TRUE, outfresh |-> TRUE]
                                                            ELSE [panic |-> FALSE, srcafter |-> Norm(m).payloads, refsout |-> FALSE, heldsame |-> TRUE, insame |-> TRUE])
                    [] o = "scribble_out" -> Step("heap_scribble_out", "C20", FALSE, [x |-> 0], NoCrash)
                    [] o = "encode_dec" ->
                         LET m2 == [DecMsg(m) EXCEPT !.payloads = << Rep("N") >> \o @] IN
                         Step("heap_encode_dec", "C20", FALSE, [extra |-> Rep("N")],
-                             IF Encodable(m2) THEN [panic |-> FALSE, err |-> FALSE, wire |-> EncMsg(Norm(m2)), insame |-> TRUE, heldsame |-> TRUE]
+                             IF Encodable(m2) THEN [panic |-> FALSE, err |-> FALSE, wire |-> EncMsg(Norm(m2)), insame |-> TRUE, heldsame |-> TRUE, outfresh |-> TRUE]
                                               ELSE [panic |-> FALSE, insame |-> TRUE, heldsame |-> TRUE])
                    [] o = "protect" -> Step("heap_protect", "C20", FALSE, [suite |-> (Len(s) % 9) + 1, role |-> (Len(s) % 2 = 0)],
-                                            [panic |-> FALSE, err |-> FALSE, srchdr |-> HdrOf(m), orig |-> Norm(m).payloads, held |-> Norm(m).payloads, nsk |-> 1])
+                                            [panic |-> FALSE, err |-> FALSE, srchdr |-> HdrOf(m), orig |-> Norm(m).payloads, held |-> Norm(m).payloads, nsk |-> 1, outfresh |-> TRUE])
                    [] OTHER -> Step("heap_observe", "C20", FALSE, [x |-> 0],
                                     IF decoded THEN [panic |-> FALSE, dmsg |-> DecMsg(m).payloads, orig |-> Norm(m).payloads, held |-> Norm(m).payloads, srchdr |-> HdrOf(m), heldsame |-> TRUE, insame |-> TRUE, protsame |-> TRUE]
                                                ELSE [panic |-> FALSE, orig |-> Norm(m).payloads, held |-> Norm(m).payloads, srchdr |-> HdrOf(m), heldsame |-> TRUE, insame |-> TRUE, protsame |-> TRUE])
